@@ -716,6 +716,60 @@ fn adaptive_remainder<B: SField, E: winter_math::FieldElement<BaseField = B>>(sc
     Some(bytes)
 }
 
+
+/// The out-of-domain evaluations H_j(z) plus a vector e with  sum_j z^(j n) e_j = 0  and  sum_j dc_j e_j = 0  (dc = the DEEP
+/// coefficients of the composition columns): the reduced value H(z) and the DEEP composition at every queried position are
+/// unchanged, so the substitution can only be noticed because the evaluations were absorbed into the transcript before the DEEP
+/// coefficients were drawn.  Needs the challenges of the honest transcript (z and dc, read from the recording coin: z is the first
+/// draw after the constraint commitment, the DEEP coefficients are the last draws before the first FRI commitment / the query
+/// phase) and at least three composition columns.
+fn adaptive_ood<B: SField, E: winter_math::FieldElement<BaseField = B>>(
+    log: &[crate::rec::CCall],
+    croot: &[u8],
+    n: usize,
+    width_total: usize,
+    lagrange: bool,
+    evals_bytes: &[u8],
+) -> Option<Vec<u8>> {
+    use winter_utils::{ByteReader, Serializable, SliceReader};
+    let ccols = evals_bytes.len() / E::ELEMENT_BYTES;
+    if ccols < 3 {
+        return None;
+    }
+    let hz: Vec<E> = SliceReader::new(evals_bytes).read_many(ccols).ok()?;
+    let i = log.iter().position(|c| c.op == "reseed" && c.data == croot)?;
+    let el = |c: &crate::rec::CCall| -> Option<E> { SliceReader::new(&c.data).read_many::<E>(1).ok().map(|v| v[0]) };
+    let z = el(log.get(i + 1).filter(|c| c.op == "draw")?)?;
+    // the block of draws that contains the DEEP coefficients: the draws after the last absorption that follows z and precedes
+    // the next commitment; it has width + ccols (+ 1) draws
+    let need = width_total + ccols + lagrange as usize;
+    let mut j = i + 2;
+    let mut block: Vec<E> = vec![];
+    while j < log.len() {
+        match log[j].op {
+            "draw" => block.push(el(&log[j])?),
+            "reseed" if block.len() >= need => break,
+            "reseed" => block.clear(),
+            _ => break,
+        }
+        j += 1;
+    }
+    if block.len() < need {
+        return None;
+    }
+    let dc = &block[width_total..width_total + ccols];
+    let a: Vec<E> = (0..3).map(|k| z.exp(((k * n) as u64).into())).collect();
+    let e = [a[1] * dc[2] - a[2] * dc[1], a[2] * dc[0] - a[0] * dc[2], a[0] * dc[1] - a[1] * dc[0]];
+    if e.iter().all(|x| *x == E::ZERO) {
+        return None;
+    }
+    let mut bytes = Vec::new();
+    for (k, h) in hz.iter().enumerate() {
+        (if k < 3 { *h + e[k] } else { *h }).write_into(&mut bytes);
+    }
+    Some(bytes)
+}
+
 fn rd_scalar(b: &[u8], off: usize, w: usize) -> u64 {
     (0..w.min(8)).fold(0u64, |v, i| v | ((b[off + i] as u64) << (8 * i)))
 }
@@ -817,6 +871,7 @@ impl Job for Mutate {
         }
         // consistency-preserving substitution that needs the query positions: the FRI remainder plus a multiple of the
         // vanishing polynomial of the queried points of the last layer
+        let mut adaptive_ood_done = false;
         let adaptive = {
             use crate::rec::{clog_take, RecCoin};
             use winter_math::fields::{CubeExtension, QuadExtension};
@@ -836,6 +891,30 @@ impl Job for Mutate {
                 2 => adaptive_remainder::<B, QuadExtension<B>>(sc, &positions, rem_bytes),
                 _ => adaptive_remainder::<B, CubeExtension<B>>(sc, &positions, rem_bytes),
             };
+            // the out-of-domain evaluations moved inside the kernel of (reduction at z, DEEP coefficients)
+            if let Some(es) = sp.iter().find(|s| s.name == "ood.evaluations") {
+                use winter_crypto::Digest;
+                let lde = sc.shape.n * sc.opts.blowup;
+                let layers = winter_fri::FriOptions::new(sc.opts.blowup, sc.opts.fold, sc.opts.rem).num_fri_layers(lde);
+                let segments = 1 + (sc.shape.aux_width() > 0) as usize;
+                if let Ok((_t, croot, _f)) = proof.commitments.clone().parse::<H>(segments, layers) {
+                    let eb = &bytes[es.off + es.width..es.off + es.width + es.len];
+                    let wt = sc.shape.width + sc.shape.aux_width();
+                    let cr = croot.as_bytes().to_vec();
+                    let ne = match sc.ext {
+                        1 => adaptive_ood::<B, B>(&log, &cr, sc.shape.n, wt, sc.shape.lagrange, eb),
+                        2 => adaptive_ood::<B, QuadExtension<B>>(&log, &cr, sc.shape.n, wt, sc.shape.lagrange, eb),
+                        _ => adaptive_ood::<B, CubeExtension<B>>(&log, &cr, sc.shape.n, wt, sc.shape.lagrange, eb),
+                    };
+                    if let Some(ne) = ne {
+                        let mut mb = bytes.clone();
+                        mb[es.off + es.width..es.off + es.width + es.len].copy_from_slice(&ne);
+                        let o = judge_bytes::<B, H>(&mb, &bytes, poff, &b.inputs);
+                        record("adaptive: ood.evaluations + a vector in the kernel of the reduction at z and of the DEEP coefficients".into(), o, &mut tally, &mut findings, false);
+                        adaptive_ood_done = true;
+                    }
+                }
+            }
             match new_rem {
                 Some(nr) => {
                     let mut mb = bytes.clone();
@@ -874,7 +953,7 @@ impl Job for Mutate {
             use winter_utils::Serializable;
             H::hash(&[]).to_bytes().len()
         };
-        json!({"id": sc.id, "prove": "ok", "honest": honest, "bytes": bytes.len(), "structured": applied, "structured_classes": structured, "grind": sc.opts.grind, "bitflips": flips, "adaptive": adaptive, "colliding_nonce": colliding_nonce,
+        json!({"id": sc.id, "prove": "ok", "honest": honest, "bytes": bytes.len(), "structured": applied, "structured_classes": structured, "grind": sc.opts.grind, "bitflips": flips, "adaptive": adaptive, "adaptive_ood": adaptive_ood_done, "colliding_nonce": colliding_nonce,
                "truncations": truncs, "tally": tally, "findings": findings,
                "spans": span_map, "elem_bytes": B::ELEMENT_BYTES, "digest_bytes": digest_bytes})
     }
